@@ -19,9 +19,18 @@ def Obs.isRep : Obs → Bool
   | .rep .. => true
   | _ => false
 
-/-- append an observation to the ghost log (replies go through `emitRep`; nothing is observable
-    once the daemon hangs) -/
-def emit (o : Obs) : M Unit := modS fun s => if s.blocked || o.isRep then s else { s with log := s.log ++ [o] }
+def Obs.isEv : Obs → Bool
+  | .ev .. => true
+  | _ => false
+
+/-- append an observation to the ghost log (replies go through `emitRep`, published events through
+    `emitEv`; nothing is observable once the daemon hangs) -/
+def emit (o : Obs) : M Unit :=
+  modS fun s => if s.blocked || o.isRep || o.isEv then s else { s with log := s.log ++ [o] }
+
+/-- an event published on the PUB socket -/
+def emitEv (wname topic : String) (pid : Option Nat) (extra : String) : M Unit :=
+  modS fun s => if s.blocked then s else { s with log := s.log ++ [Obs.ev wname topic pid extra] }
 
 /-- a reply written to the control stream -/
 def emitRep (cid : String) (id : JVal) (status errno body : String) : M Unit :=
